@@ -42,6 +42,10 @@ ATTR_SHIMS = {
     ("np", "arctan2"): "arctan2",
     ("np", "cross"): "cross",
     ("np", "linspace"): "linspace",
+    ("np", "allclose"): "allclose",
+    ("np", "isclose"): "np_isclose",
+    ("np", "argmin"): "argmin",
+    ("np", "argmax"): "argmax",
 }
 for _u in ("sqrt", "sin", "cos", "tan", "arccos", "arcsin", "arctan", "log", "log10", "exp"):
     ATTR_SHIMS[("np", _u)] = "u_" + _u
@@ -192,7 +196,7 @@ def extraction_report() -> dict:
         "modules": len(_REPORT),
         "call_rewrites": sum(m["rewrites"] for m in _REPORT.values()),
         "shimmed_builtins": sorted(BUILTIN_SHIMS),
-        "shimmed_library_calls": ["math.isclose", "np.isnan", "np.clip", "np.arctan2", "np.cross", "np.linspace", "np.linalg.norm", "np.<unary ufunc> (sqrt sin cos tan arccos arcsin arctan log log10 exp)"],
+        "shimmed_library_calls": ["math.isclose", "np.isnan", "np.clip", "np.arctan2", "np.cross", "np.linspace", "np.allclose", "np.isclose", "np.argmin", "np.argmax", "np.linalg.norm", "np.<unary ufunc> (sqrt sin cos tan arccos arcsin arctan log log10 exp)"],
         "rebindings": ["util.constants.DTYPE := object", "util.functions.norm := sqrt-of-squares model (symbolic args only)",
                        "util.functions.rotation_matrix := Rodrigues model (symbolic args only)",
                        "grading.relations._validate_count := comparison on the proxy (symbolic count only)"],
